@@ -606,16 +606,48 @@ func serviceOrderDrops(r *h.Run, idx int) {
 			return def
 		})
 	}
-	s := client.NewService(400)
+	// a third of the runs: a command queue of 4 and a broker that cannot be
+	// reached at first, so the single caller keeps running into a full queue
+	tiny := idx%3 == 2
+	qsize := 400
+	if tiny {
+		qsize = 4
+		refuse := 1 + idx/3%3
+		srv.OnDial = func(n int) error {
+			if n <= refuse {
+				return ch.ErrRefused
+			}
+			return nil
+		}
+	}
+	s := client.NewService(qsize)
 	s.MinReconnectDelay, s.MaxReconnectDelay = time.Millisecond, 3*time.Millisecond
+	s.QueueTimeout = 30 * time.Second
 	if slow {
 		// paces the dispatcher so that a loss is noticed while commands are queued
 		s.Logger = func(string) { time.Sleep(200 * time.Microsecond) }
 	}
-	for i := 0; i < total; i++ {
-		s.Publish(fmt.Sprintf("svc/%04d", i), []byte("x"), 0, false)
+	issued := make(chan struct{})
+	issue := func() {
+		defer close(issued)
+		for i := 0; i < total; i++ {
+			s.Publish(fmt.Sprintf("svc/%04d", i), []byte("x"), 0, false)
+		}
 	}
-	s.Start(ch.Config(srv, "c15-svcdrop", true))
+	if tiny {
+		s.Start(ch.Config(srv, "c15-svcdrop", true))
+		go issue()
+	} else {
+		issue()
+		s.Start(ch.Config(srv, "c15-svcdrop", true))
+	}
+	select {
+	case <-issued:
+	case <-time.After(bh.Watchdog):
+		r.Inconclusive(fmt.Sprintf("service order with drops #%d: the caller was still blocked on the command queue after the watchdog", idx))
+		go s.Stop(true)
+		return
+	}
 	// the end marker is a command like the others: re-issued until one arrives
 	arrived := func() (nums []int, end bool) {
 		cut := map[string]bool{}
